@@ -23,6 +23,12 @@ def run(ctx):
         jobs = sel[:]
         ctx.exhaustive = False
     fl.run_mixes(ctx, rp, jobs, max_paths=400 if ctx.quick else None)
+    # finest grain (FutureFine.tla) for pairs of competing resolvers
+    fine = [(["val", "exc"], []), (["val", "drop"], ["co"]), (["exc", "mdes"], ["bl"]), (["val", "val"], ["cb"]), (["drop", "masg"], []),
+            (["val", "dtor"], ["co"])]
+    if not ctx.quick:
+        fine += [(list(c), w) for c in [("val", "val"), ("exc", "drop"), ("mdes", "val"), ("masg", "exc"), ("drop", "drop")] for w in ([], ["co"], ["bl"], ["cb"])]
+    fl.run_mixes_fine(ctx, rp, fine, max_paths=400 if ctx.quick else None)
     # code -> spec: random schedules with more competing resolvers than the dumped graphs, validated as traces
     big = [(["val", "exc", "drop", "mdes"], ["co"]), (["val", "val", "exc", "dtor"], ["bl", "cb"]), (["drop", "mdes", "mdes", "val", "dtor"], [])]
     for k, (r, w) in enumerate(big if not ctx.quick else big[:2]):
